@@ -189,12 +189,15 @@ impl Session {
                     g.m = MState::WaitingLine;
                     g.turn = Role::S;
                     sr.cv.notify_all();
-                    match sr.wait_until(g, |s| s.turn == Role::M && s.line_for_m.is_some()) {
-                        Ok(mut g) => {
-                            g.m = MState::Running;
-                            Ok(g.line_for_m.take().unwrap_or_default())
+                    // M never gives up on its own: only the scheduler (S) owns a real-time limit
+                    loop {
+                        match sr.wait_until(g, |s| s.turn == Role::M && s.line_for_m.is_some()) {
+                            Ok(mut g) => {
+                                g.m = MState::Running;
+                                return Ok(g.line_for_m.take().unwrap_or_default());
+                            }
+                            Err(()) => g = sr.lock(),
                         }
-                        Err(()) => Ok("quit".to_string()),
                     }
                 };
                 let sc = s2.clone();
@@ -707,8 +710,17 @@ impl<'a> Gui<'a> {
         events.sort_by_key(|e| e.at_node);
         let mut next_ev = 0usize;
         let mut guard = 0u64;
+        // a search without a depth limit can race through thousands of iterations on a tiny tree
+        // (e.g. a root whose every line is a repetition draw); the engine gets slower with every
+        // iteration, so the GUI model looks at every poll and ends such a search itself
+        const MAX_ITERATIONS: usize = 400;
+        let watch_iterations = c.go.depth.is_none();
+        let mut last_park = 0u64;
         loop {
-            let next_node = events.get(next_ev).map_or(u64::MAX, |e| e.at_node).min(limit);
+            let mut next_node = events.get(next_ev).map_or(u64::MAX, |e| e.at_node).min(limit);
+            if watch_iterations {
+                next_node = next_node.min(last_park + 1);
+            }
             self.sess.release_t(next_node).map_err(|f| fail_to_violation(f, "C07", &format!("during search of {} ({})", root.to_fen(), go_line.trim())))?;
             self.absorb_events(Some(&mut win))?;
             if self.sess.over {
@@ -728,8 +740,17 @@ impl<'a> Gui<'a> {
             if t != TState::AtPoll {
                 return Err(viol("HARNESS", "unexpected_t_state", format!("{:?}", t)));
             }
-            let nodes = self.sess.sched.lock().last_poll.0;
+            let (nodes, _, iteration) = self.sess.sched.lock().last_poll;
+            last_park = nodes;
             self.res.bump("parks_at_poll");
+            if watch_iterations && iteration >= MAX_ITERATIONS && win.stop_delivered_at.is_none() && !events[next_ev..].iter().any(|e| e.at_node <= nodes) {
+                self.res.bump("probe.gui_stopped_runaway_iteration_count");
+                self.feed_checked("stop", false)?;
+                win.stop_delivered_at = Some(nodes);
+                limit = limit.min(nodes + 64);
+                self.absorb_events(Some(&mut win))?;
+                continue;
+            }
             // deliver due events
             let mut delivered = false;
             while next_ev < events.len() && events[next_ev].at_node <= nodes {
